@@ -112,6 +112,7 @@ def cp_apr(  # noqa: PLR0913
                 assert False, f"Initial guess has negative element in mode {n}"
         if np.min(init.weights) < 0:
             assert False, "Initial guess has a negative ktensor weight"
+        init = init.copy()
 
     elif init.lower() == "random":
         factor_matrices = []
